@@ -80,6 +80,11 @@ func c09Check(c c09Case) vfResult {
 			}
 		}
 	}
+	if r.Err == nil && len(full) > 0 && (r.Hash%4 == 0 || len(full) > 2500) {
+		if err := vfRoutes(full, c.Limit, vfDetectAt(full, c.Limit)); err != nil {
+			r.Err = fmt.Errorf("%v; input %s", err, vfQ(full))
+		}
+	}
 	return r
 }
 
@@ -168,6 +173,17 @@ func c09Enumerate(t *testing.T, c09Alphabet []byte, maxLen int, onlyOpening bool
 var c09MutBytes = []byte{'[', ']', '{', '}', '"', ':', ',', ' ', '\\', 'n', 'u', 't', 'f', '1', '-', '.', 'e', 'a', '\n', 0x00, 0xff, '0'}
 
 func c09GenMutant(t *rapid.T) c09Case {
+	if rapid.IntRange(0, 15).Draw(t, "long") == 0 {
+		// a complete document, white space up to somewhere behind the default limit, then garbage
+		// (or nothing); examined with a raised limit through every route
+		doc := []byte(jGenDoc(t, 3).String())
+		pad := rapid.IntRange(3000, 7000).Draw(t, "padto")
+		for len(doc) < pad {
+			doc = append(doc, rapid.SampledFrom([]string{" ", "\n", " \t", "\r\n"}).Draw(t, "ws")...)
+		}
+		doc = append(doc, rapid.SampledFrom([]string{"", "}}]", "{\"b\":2}", "x", ",", "]"}).Draw(t, "garbage")...)
+		return c09Case{H: doc, Limit: rapid.SampledFrom([]uint32{0, uint32(len(doc) + 1), 8192, 16384, uint32(len(doc)), 3072, 4096}).Draw(t, "longlim")}
+	}
 	doc := []byte(jGenDoc(t, rapid.IntRange(1, 4).Draw(t, "depth")).String())
 	nm := rapid.IntRange(1, 2).Draw(t, "nmut")
 	for i := 0; i < nm && len(doc) > 0; i++ {
